@@ -21,7 +21,7 @@ CLASSES = {
 
 
 def plan(tier, seed):
-    k = 16 if tier == "quick" else 600
+    k = 10 if tier == "quick" else 600
     return [{"cls": c, "seed": seed, "shard": i, "n": 250} for c in CLASSES for i in range(k)]
 
 
@@ -135,6 +135,22 @@ def snapshot_invariants(snaps, rep, days, cnt):
                             for m in dy.splits:
                                 f *= m
                     out += q * f
+            # net position (acquired - disposed, kept by the matcher for the holding check) must equal the pool minus
+            # what earlier disposals have already claimed from acquisitions still in the future (in today's units)
+            posmap = dict((t_, fr(q_)) for t_, q_ in sn.get("positions", []))
+            if tk in posmap:
+                import datetime as _dt
+                claimed = ZERO
+                for fc in sn.get("future_consumption", []):
+                    if len(fc) >= 4 and fc[2] == tk:
+                        bd = pdate(fc[3])
+                        f = lc.split_factor(days.get(tk, []), now + _dt.timedelta(days=1), bd) if bd > now else 1
+                        claimed += fr(fc[1]) / f
+                cnt["hook_position_checks"] += 1
+                if abs(posmap[tk] - (pq - claimed)) > tol(pq) * 10 ** 6:
+                    v.append({"clause": "hook-position-vs-pool",
+                              "detail": f"{tk} end of {now}: net position {float(posmap[tk])!r} != pool {float(pq)!r} - "
+                                        f"shares already claimed from future acquisitions {float(claimed)!r}"})
             expect = pool_from_lots - out
             if abs(pq - expect) > tol(expect) * 10 ** 6:
                 v.append({"clause": "hook-pool-balance",
@@ -165,7 +181,7 @@ def replay(case):
     return vs, o
 
 
-THRESHOLDS = {"multi_rule_disposals": 1000, "acq_days_with_2plus_claimants": 300, "snapshots_inspected": 5000,
+THRESHOLDS = {"multi_rule_disposals": 1000, "acq_days_with_2plus_claimants": 300, "snapshots_inspected": 5000, "hook_position_checks": 5000,
               "legs_across_split": 100}
 RULE = ("seeded shape-directed ledgers in five classes (plain, splits, capital events, tiny quantities, many "
         "same-day lots); conservation equations between input lines and reported legs/holdings plus H2 snapshot "
